@@ -344,6 +344,45 @@ def expected_cut(ctx, full_events, k, is_stream):
     return out
 
 
+def c05_front_ends(R, ctx, C):
+    """an input that ends inside a message, delivered through a container front-end (hex text, swtpm log, pcapng capture
+    whose last packet is cut short): the same events and the same depleted error as for the carried bytes"""
+    reqs, meta = [], []
+    for s_ in C.streams(n=8 if ctx["tier"] == "quick" else 60, maxpairs=2):
+        parts = s_[3]["parts"]
+        last = parts[-1]
+        if len(last) <= 11:
+            continue
+        k = R.rng.randrange(10, len(last))
+        cutparts = parts[:-1] + [last[:k]]
+        carried = b"".join(cutparts)
+        mode = R.rng.choice(["1", "0"])
+        for kind, arg in (("hex", h(render_hex(R.rng, carried))), ("swtpm", h(render_swtpm(R.rng, cutparts))),
+                          ("pcap", ",".join(h(p_) for p_ in cutparts)), ("autopcap", ",".join(h(p_) for p_ in cutparts)),
+                          ("pcapmix", ",".join(h(p_) for p_ in cutparts))):
+            reqs.append("fevents %s %s S %s" % (kind, mode, arg))
+            reqs.append("fevents binary %s S %s" % (mode, h(carried)))
+            meta.append((kind, mode, cutparts))
+        # the cut message on its own, as a command / response
+        if len(parts) % 2 == 0 and len(parts) >= 2:
+            cc = int.from_bytes(parts[-2][6:10], "big")
+            root = "R:%d:0" % cc
+            for kind in ("pcap", "hex"):
+                arg = h(last[:k]) if kind == "pcap" else h(render_hex(R.rng, last[:k]))
+                reqs.append("fevents %s %s %s %s" % (kind, mode, root, arg))
+                reqs.append("fevents binary %s %s %s" % (mode, root, h(last[:k])))
+                meta.append((kind + ":response", mode, [last[:k]]))
+    res = common.run_impl("impl_worker", reqs)
+    for k_, (kind, mode, cutparts) in enumerate(meta):
+        a_, b_ = res[2 * k_], res[2 * k_ + 1]
+        if a_ != b_:
+            R.violation("c05:front-end:" + kind, "input ending inside a message, through the %s front-end (%s mode): %r, decoding the carried bytes directly: %r"
+                        % (kind, "strict" if mode == "1" else "warn", a_[-160:], b_[-160:]),
+                        {"front_end": kind, "strict": mode == "1", "messages_hex": [h(p_) for p_ in cutparts], "front_end_result": a_[-600:], "binary_result": b_[-600:],
+                         "how": "harness/impl_worker.py: " + reqs[2 * k_][:100] + "..."})
+    R.coverage["cut_inputs_through_front_ends"] = len(meta)
+
+
 @runner("C05")
 def c05(R, ctx):
     C = Cases(R.rng, ctx["tier"])
@@ -403,6 +442,7 @@ def c05(R, ctx):
     bad = correspondence(R, ctx, reqs, impl, model)
     report_disagreements(R, ctx, reqs, impl, model, bad, flagged)
     distribution(R, cases, impl)
+    c05_front_ends(R, ctx, C)
 
 
 # ----------------------------------------------------------------------------- C06
@@ -524,6 +564,13 @@ def c02(R, ctx):
     C = Cases(R.rng, ctx["tier"])
     base = C.wellformed(per_type=1, per_cc=1, corpus_n=80) + C.streams(n=15)
     strict_cases = list(base) + C.arbitrary(n=150)
+    # inputs whose size fields do not fit their contents (one field off by a little, or a region padded consistently):
+    # whatever strict decoding accepts of them must re-encode to the input
+    withsess = [b for b in base if (b[1] == "C" or b[1].startswith("R:")) and len(b[2]) >= 2 and b[2][:2] == b"\x80\x02"]
+    for b in R.rng.sample(withsess, min(len(withsess), 60 if ctx["tier"] == "quick" else 400)):
+        strict_cases += C.size_faults(b, per=2) + C.padded(b, per=2)
+    for b in R.rng.sample(base, min(len(base), 60 if ctx["tier"] == "quick" else 400)):
+        strict_cases += C.padded(b, per=1)
     warn_cases = []
     for b in base:
         warn_cases += C.value_faults(b, per=2)
@@ -1347,7 +1394,19 @@ def c09(R, ctx):
     for it_ in range(n_w):
         c, ci, r, ri = C.G.pair()
         c2, ci2, r2, ri2 = C.G.pair()
-        kind = ["padded-last", "padded", "mismatch", "value"][it_ % 4] if it_ < 8 else R.rng.choice(["value", "value", "mismatch", "padded", "padded-last"])
+        kind = ["padded-last", "padded", "mismatch", "value", "abandoned"][it_ % 5] if it_ < 10 else R.rng.choice(["value", "value", "mismatch", "padded", "padded-last", "abandoned"])
+        if kind == "abandoned":
+            # the command ends at a field boundary and its commandSize says so: it is abandoned in front of the next field
+            # its command code requires (Exceeded), nothing of it is left in the input, and the response that follows
+            # still belongs to it
+            offs = sorted({10} | {off_ for (kd_, off_, w_, pn_, z_) in ci.get("faults", []) if 10 <= off_ < len(c)})
+            if len(c) > 10:
+                k_ = 10 if it_ < 10 else R.rng.choice(offs)
+                cbad = c[:2] + k_.to_bytes(4, "big") + c[6:k_]
+                parts = [cbad, r, c2, r2]
+                wreqs.append("stream9w " + ",".join(h(p_) for p_ in parts))
+                wmeta.append((kind, parts))
+            continue
         if kind in ("padded", "padded-last"):
             # the size field of a message covers more bytes than its fields consume: reported (Subceeded), the padding
             # skipped - inside the stream exactly as on its own, also when it is the last message
@@ -1380,6 +1439,7 @@ def c09(R, ctx):
             R.violation("c09:warn-" + r.split(" ")[1], "warn mode: stream with a %s finding in its first response does not decode as its messages one by one: %s" % (kind, r[:300]),
                         {"parts_hex": [h(p_) for p_ in parts], "result": r, "how": "harness/impl_worker.py: " + q[:120] + "..."})
     R.coverage["warn_mode_streams_equal_to_individual_decodes"] = wok
+    R.coverage["warn_mode_stream_kinds"] = dict(Counter("%s:%s" % (k_, r_.split(" ")[0] if not r_.startswith("NA") else r_[:60]) for (k_, _p), r_ in zip(wmeta, wres)))
     r1, _ = engine(R, ctx, streams, modes=("1",))
     reqs1, impl1, model1 = r1["1"]
     bad = correspondence(R, ctx, reqs1, impl1, model1)
@@ -1616,6 +1676,12 @@ def c15(R, ctx):
         ev_reqs.append("fevents autopcap 1 S " + pls); ev_ref.append(carried); ev_meta.append(("auto-pcap", pls))
         # two interfaces in one section (Ethernet and raw IP), the framing changing from packet to packet
         ev_reqs.append("fevents pcapmix 1 S " + pls); ev_ref.append(carried); ev_meta.append(("pcap-mixed", pls))
+        # the same exchange twice in packets with identical headers (constant ports and sequence numbers)
+        if len(parts) >= 2:
+            twice = [parts[0], parts[1], parts[0], parts[1]]
+            pls2 = ",".join(h(p_) for p_ in twice)
+            fe_reqs.append("fe pcap " + pls2); fe_meta.append(("pcap", pls2, b"".join(twice)))
+            ev_reqs.append("fevents pcapconst 1 S " + pls2); ev_ref.append(b"".join(twice)); ev_meta.append(("pcap-identical-headers", pls2))
         ev_reqs.append("fevents autopcapmix 1 S " + pls); ev_ref.append(carried); ev_meta.append(("auto-pcap-mixed", pls))
     # malformed text
     for _ in range(40):
@@ -2133,6 +2199,13 @@ def c19(R, ctx):
             open(path, "wb").write(c[2])
             tfiles.append(("bin", ["binary"], path))
         tfiles.append(("bin", ["binary"], os.path.join(tmp, "edge_getrandom")))
+        # successful responses that consist of one handle (every handle range), with and without a session area
+        for k_, hv in enumerate([0x02000000, 0x03000001, 0x80000001, 0x81000001, 0x40000007, 0x40000001, 0x01000000] if ctx["tier"] != "quick"
+                                else [0x02000000, 0x81000001]):
+            blob = bytes.fromhex("80010000000e00000000") + hv.to_bytes(4, "big")
+            path = os.path.join(tmp, "rsph%d" % k_)
+            open(path, "wb").write(blob)
+            tfiles.append(("bin", ["binary"], path))
         # very short files: a handle, an algorithm id, a single byte, nothing
         for k_, blob in enumerate([bytes.fromhex("40000001"), bytes.fromhex("000b"), b"\x01", b"", bytes.fromhex("0000000100")]):
             path = os.path.join(tmp, "short%d" % k_)
